@@ -207,6 +207,8 @@ type env struct {
 	n   *vnode.Node
 	p   *prior
 	dir string
+	// the collection handle an index operation was made through (a program keeps using it after the call)
+	handle client.Collection
 }
 
 type opDef struct {
@@ -324,6 +326,7 @@ var ops = []opDef{
 		if err != nil {
 			return err
 		}
+		e.handle = col
 		_, err = col.CreateIndex(e.ctx, client.IndexCreateRequest{Name: "verif_idx", Fields: []client.IndexedFieldDescription{{Name: "verified"}, {Name: "age", Descending: true}}})
 		return err
 	}},
@@ -339,6 +342,7 @@ var ops = []opDef{
 		if len(idx) == 0 {
 			return fmt.Errorf("no index")
 		}
+		e.handle = col
 		return col.DropIndex(e.ctx, idx[0].Name)
 	}},
 	{"add-schema", always, func(e *env) error {
@@ -367,6 +371,8 @@ type outcome struct {
 	fired  string
 	// the GraphQL types the node serves before and after the call (object types and their fields)
 	gqlBefore, gqlAfter string
+	// the indexes listed by the handle the call was made through and by a handle fetched after the call
+	handleIdx, freshIdx string
 }
 
 const barrierName = event.Name("verif-barrier")
@@ -452,6 +458,26 @@ func runOnce(ctx context.Context, p *prior, op opDef, k int, dir string) (o outc
 			panic("bus barrier timed out")
 		}
 	}
+	if e.handle != nil {
+		names := func(c client.Collection) string {
+			ds, err := c.GetIndexes(ctx)
+			if err != nil {
+				return "error:" + err.Error()
+			}
+			var ns []string
+			for _, d := range ds {
+				ns = append(ns, fmt.Sprintf("%s(%d fields)", d.Name, len(d.Fields)))
+			}
+			sort.Strings(ns)
+			return "[" + strings.Join(ns, " ") + "]"
+		}
+		o.handleIdx = names(e.handle)
+		if fresh, err := n.DB.GetCollectionByName(ctx, "User"); err == nil {
+			o.freshIdx = names(fresh)
+		} else {
+			o.freshIdx = "error:" + err.Error()
+		}
+	}
 	o.after = dump(ctx, inner)
 	o.gqlAfter = servedTypes(ctx, n)
 	n.DB.Close()
@@ -533,6 +559,9 @@ func main() {
 			if o.gqlAfter != o.gqlBefore {
 				return "err-changed", "the GraphQL types the node serves changed although the call failed: " + firstDiffWord(o.gqlBefore, o.gqlAfter)
 			}
+			if o.handleIdx != o.freshIdx {
+				return "err-changed-handle", fmt.Sprintf("the collection handle the failed call was made through lists the indexes %s, the stored collection has %s", o.handleIdx, o.freshIdx)
+			}
 			return "atomic", "err-unchanged"
 		default:
 			if eq, why := equalDump(j.ff.after, o.after); !eq {
@@ -546,6 +575,9 @@ func main() {
 			}
 			if o.gqlAfter != j.ff.gqlAfter {
 				return "ok-partial", "the GraphQL types the node serves differ from those after the fault-free run: " + firstDiffWord(j.ff.gqlAfter, o.gqlAfter)
+			}
+			if o.handleIdx != o.freshIdx {
+				return "ok-partial", fmt.Sprintf("the collection handle the call was made through lists the indexes %s, the stored collection has %s", o.handleIdx, o.freshIdx)
 			}
 			return "atomic", "ok-complete"
 		}
